@@ -525,7 +525,12 @@ func BuildColumnName(expr sqlparser.Expr) (string, string, error) {
 	if !ok {
 		return "", "", INVALID_TYPE.Extend(fmt.Sprintf("failed to build `COLUMN` name. expected ColName but found %T", expr))
 	}
-	return columnName.Qualifier.Name.String(), columnName.Name.String(), nil
+	// a.b.c is parsed as qualifier a.b and name c: every part belongs to the path
+	qualifier := columnName.Qualifier.Name.String()
+	if outer := columnName.Qualifier.Qualifier.String(); len(outer) > 0 {
+		qualifier = fmt.Sprintf("%s.%s", outer, qualifier)
+	}
+	return qualifier, columnName.Name.String(), nil
 }
 
 func BuildFromAliasedTable(query *Query, as string, expr sqlparser.SimpleTableExpr) error {
